@@ -120,6 +120,9 @@ func newPool(c *core.Ctx, n int) *run.Pool {
 // crossCheck runs the same case through L1 and compares with the L2 result
 // (faithfulness self-check of the in-process back-end).
 func crossCheck(c *core.Ctx, s *run.Server, args []string, env map[string]string, l2 run.Result) {
+	if l2.Panic != "" {
+		return // reported by the caller as a crash; L1 would die with a partial report
+	}
 	l1 := run.Exec(c.HR, args, run.ExecOpts{Dir: s.Dir, Env: env})
 	c.Count("l1_crosschecks", 1)
 	if l1.Out != l2.Out || (l1.Exit == 0) != (l2.Exit == 0) {
@@ -129,3 +132,7 @@ func crossCheck(c *core.Ctx, s *run.Server, args []string, env map[string]string
 }
 
 func joinArgs(a []string) string { return strings.Join(a, " ") }
+
+type bigRat = big.Rat
+
+func absRat(r *big.Rat) *big.Rat { return new(big.Rat).Abs(r) }
